@@ -61,6 +61,8 @@ struct AttemptRec {
     /// requests that arrived on a connection that had already gone silent
     on_hung_connection: usize,
     reply: Option<Reply>,
+    /// error code of the application-error reply the node sent
+    reply_ec: u32,
 }
 
 struct NodeShared {
@@ -148,8 +150,14 @@ fn serve_conn(shared: Arc<NodeShared>, mut s: TcpStream) {
                 }
             }
             Outcome::AppError => {
-                let f = frame_with(h.id, 0, &query, 1, b"application says no", 3, 4096);
-                shared.note(|a| a.reply = Some(Reply::AppError));
+                // (application-level error replies of several codes, the "retry later" code
+                // included: a reply is a reply)
+                let ec = [4096u32, 8, 6, 9][shared.served.load(Ordering::SeqCst) % 4];
+                let f = frame_with(h.id, 0, &query, 1, b"application says no", 3, ec);
+                shared.note(|a| {
+                    a.reply = Some(Reply::AppError);
+                    a.reply_ec = ec;
+                });
                 let _ = s.write_all(&f);
             }
             Outcome::Malformed => {
@@ -401,7 +409,7 @@ fn check_with(c: &Case, timeout_ms: u64) -> CheckResult {
                 }
                 Some(Reply::AppError) => {
                     ensure!(
-                        code == Some(4096) && value.is_none(),
+                        code == Some(last.reply_ec) && value.is_none(),
                         "app-error-not-reported",
                         "call {calls}: the node replied with an application error but the call reports value {value:?} error {error:?}"
                     );
